@@ -17,7 +17,7 @@
     computed in one place. *)
 From Coq Require Import List ZArith Bool Arith.
 Import ListNotations.
-From TI Require Import model.ImgIter model.ImgIterSpec.
+From TI Require Import model.ImgIter model.ImgIterSpec model.ImgIterEnv.
 
 Local Open Scope nat_scope.
 
@@ -29,16 +29,22 @@ Record itcase := {
   it_cached : bool + Z;               (* the constructor's argument *)
   it_cache_on : bool;                 (* observed it._cached *)
   it_pos0 : Z;
-  it_table : list (list Z);           (* per size index, per frame: frame id, -1 = rendering fails *)
-  it_hashes : list Z;                 (* per size index: hash(rendered_size) *)
-  it_ops : list (op nat);
+  it_nenv : nat;                      (* number of environments of the case (>= 1) *)
+  it_table : list (list Z);           (* per configuration, per frame: frame id, -1 = rendering fails *)
+  it_hashes : list Z;                 (* per configuration: hash(rendered_size) *)
+  it_ops : list (eop nat nat);
   it_file : bool;                     (* the source is a file path: the library opens the file itself *)
   it_obs : list (list Z);             (* per op: outcome code, frame id, tell, loop_no (-99 = None), number of
                                          images opened by the library for this iterator and not yet handed to
                                          Image.close() *)
+  it_direct : list Z;                 (* per op: after a yield, the id of the frame formatted directly right
+                                         then under the environment in force; -1 otherwise *)
   it_keep : bool                      (* size setting unchanged, caller's image alive, fds balanced,
                                          exhausted PIL source back at frame 0 *)
 }.
+
+(** configuration number of (setting i, environment j) *)
+Definition cfg (nenv : nat) (i j : nat) : nat := i * nenv + j.
 
 Definition tab_fmt (t : list (list Z)) (k z : nat) : res Z :=
   match nth_error (nth z t []) k with
@@ -84,13 +90,24 @@ Definition iter_ok_model (c : itcase) : bool :=
   let ce := cache_enabled (it_repeat c) (it_cached c) (it_n c) in
   Bool.eqb ce (it_cache_on c)
   && zll_eqb (map (row (it_file c)) (trace (tab_fmt (it_table c)) (tab_hash (it_hashes c)) (it_n c) ce
-                             (init Z (it_repeat c) (it_pos0 c) 0) (it_ops c)))
+                             (init Z (it_repeat c) (it_pos0 c) (cfg (it_nenv c) 0 0))
+                             (lower (cfg (it_nenv c)) 0 0 (it_ops c))))
              (it_obs c).
+
+(** every yielded frame is the one direct formatting gave right after the yield *)
+Fixpoint direct_ok (obs : list (list Z)) (d : list Z) : bool :=
+  match obs, d with
+  | [], [] => true
+  | r :: obs', x :: d' =>
+      (negb (Z.eqb (nth 0 r (-1)%Z) 0) || Z.eqb (nth 1 r (-1)%Z) x) && direct_ok obs' d'
+  | _, _ => false
+  end.
 
 Definition iter_ok_spec (c : itcase) : bool :=
   it_keep c
-  && zll_eqb (map (row (it_file c)) (strace (tab_fmt (it_table c)) (it_n c)
-                              (sinit (it_repeat c) (it_pos0 c) 0) (it_ops c)))
+  && direct_ok (it_obs c) (it_direct c)
+  && zll_eqb (map (row (it_file c)) (strace (fmt_env (cfg (it_nenv c)) (tab_fmt (it_table c))) (it_n c)
+                              (sinit (it_repeat c) (it_pos0 c) (0, 0)) (lower2 0 0 (it_ops c))))
              (it_obs c).
 
 Definition check_iter (c : itcase) : nat :=
